@@ -150,6 +150,22 @@ type resumedWriter struct {
 	// offset holds the offset that the next Write call
 	// must start at (-1 for no check).
 	offset int64
+	// written records whether Write has succeeded, in which
+	// case offset is known to be where this writer's data ends.
+	written bool
+}
+
+// Size returns the size of the upload as this writer knows it: once it
+// has written something, the position after its own data, so that
+// the result is not affected by data that has gone in through another
+// writer since.
+func (w *resumedWriter) Size() int64 {
+	w.mu.Lock()
+	defer w.mu.Unlock()
+	if w.offset != -1 && w.written {
+		return w.offset
+	}
+	return w.Buffer.Size()
 }
 
 func (w *resumedWriter) Write(data []byte) (int, error) {
@@ -158,6 +174,7 @@ func (w *resumedWriter) Write(data []byte) (int, error) {
 	n, err := w.Buffer.writeAt(w.offset, data)
 	if err == nil && w.offset != -1 {
 		w.offset += int64(n)
+		w.written = true
 	}
 	return n, err
 }
